@@ -92,10 +92,39 @@ SYMPATH = [None]   # instrumented copy of posixpath, loaded lazily
 PATH_HOOKS = {}    # name -> callable overriding os.path.<name> on symbolic arguments (e.g. realpath stubs)
 
 
+def _py_normpath(path):
+    """posixpath.normpath's pure-Python algorithm (CPython 3.12 uses a C helper that cannot see proxies)"""
+    if not isinstance(path, str):
+        raise TypeError("expected str")
+    P = lift(path)
+    if len(P) == 0:
+        return "."
+    initial_slashes = 1 if P.startswith("/") else 0
+    # POSIX allows one or two initial slashes, but treats three or more as single slash.
+    if initial_slashes and P.startswith("//") and not P.startswith("///"):
+        initial_slashes = 2
+    comps = P.split("/")
+    new_comps = []
+    for comp in comps:
+        if len(comp) == 0 or (len(comp) == 1 and truth(_s.f_eq(comp, "."))):
+            continue
+        is_dd = len(comp) == 2 and truth(_s.f_eq(comp, ".."))
+        if (not is_dd or (not initial_slashes and not new_comps) or
+                (new_comps and len(new_comps[-1]) == 2 and truth(_s.f_eq(new_comps[-1], "..")))):
+            new_comps.append(comp)
+        elif new_comps:
+            new_comps.pop()
+    out = lift("/").join(new_comps)
+    if initial_slashes:
+        out = "/" * initial_slashes + out
+    return out if len(out) else "."
+
+
 def _sympath():
     if SYMPATH[0] is None:
         from symx import instrument
         SYMPATH[0] = instrument.load_instrumented_copy("posixpath", "symx._posixpath", strings=True)
+        SYMPATH[0].normpath = _py_normpath
     return SYMPATH[0]
 
 
